@@ -165,3 +165,16 @@ reg("C03", "c03",
     "refuse (error / invalid, local refs untouched, no panic). Reads of self-built histories are bound to Order by the trace "
     "specification.",
     GB_NOTE, "DESIGN.md section 4, C03")
+
+reg("C13", "c13",
+    "TLA+ spec Ids.tla model-checked by TLC (interleaving theorem for every prefix length, resolution table); vectors against "
+    "CombineIds/SeparateIds; traces of real prefix resolution validated by TLC",
+    "TLC proves on position-tagged symbolic ids that for every prefix length 0..64 a combined id's prefix separates into a prefix "
+    "of each part (50 + 14 symbols, injective layout) and checks the 0/1/many table on every population of <= 4 ids with all "
+    "shared-prefix shapes. The layout is replayed against entity.CombineIds / SeparateIds on random real ids. The harness then "
+    "engineers real populations (bugs, identities, comments whose ids share 1-3 leading characters, found by grinding nonces), "
+    "asks the cache to resolve every prefix length 0..64 of every id and combined id plus near-miss prefixes, and TLC accepts the "
+    "trace only if every answer (entity found, multiple-match error and its id list, not-found) is the one the specification "
+    "computes on the logged population.",
+    "SHA-256 collisions ignored; the cache is built by git-bug itself from entities written through the entity API.",
+    "DESIGN.md section 4, C13")
